@@ -137,8 +137,8 @@ def run(ctx):
                 "keyword-only, annotation absent/int/str, default absent/5/'d', return annotation absent (and int when nothing is bound); without defaults up to "
                 f"{consts['MaxPB0']} parameters) x every positional prefix x every keyword subset of the remaining parameters "
                 f"({consts['NVals']} values out of 1 / 'kv' / 'v'), in one with_values call or split in "
-                f"two; !Edge1: producer t1 (return annotation absent/int/str) x consumer t2 (<= {consts['MaxP']} parameters, no "
-                "defaults) x one edge with source task/output, sink task, sink parameter existing or dangling, keyword or "
+                f"two; !Edge1: producer t1 (return annotation absent/int/str/bool/object) x consumer t2 (one parameter annotated "
+                f"absent/int/str/bool/object, or <= {consts['MaxP']} parameters annotated absent/int/str; no defaults) x one edge with source task/output, sink task, sink parameter existing or dangling, keyword or "
                 f"positional; !Edge2: two edges (consumer <= {consts['MaxP2']} parameters); all enumerated by TLC; non-trivial = "
                 "binds a value or has an edge; TLC evaluates Builder!Post on every (case, dumps of the builders' results)",
         "clauses": ["build_raised_on_dangling_sink_task", "build_raised_on_other_dangling_edge", "build_raised_on_unannotated_source",
@@ -156,8 +156,9 @@ def run(ctx):
         ctx.violate("post:" + "+".join(sorted(names)) + (f":{et}" if et else ""),
                     f"builders violate {sorted(names)} on case {c}", {"case": c, "result": r}, clause="+".join(sorted(names)))
     ctx.assumptions += ["bounded domain as stated in `rule`; callables are synthesised by exec of a generated `def`; values are "
-                        "ints and strs; 'compatible declared type' is read as: equal types or an un-annotated parameter are "
-                        "compatible, int vs str is not, an un-annotated producer into an annotated parameter may be accepted or "
+                        "ints and strs; 'compatible declared type' is read as: the producer's type is the parameter's type or a subclass "
+                        "of it (bool <= int <= object, str <= object), or the parameter is un-annotated; anything else (int into "
+                        "bool, int vs str, object into int) is not; an un-annotated producer into an annotated parameter may be accepted or "
                         "rejected (but must not raise); keyword bindings name existing parameters only"]
 
 
